@@ -39,11 +39,10 @@ Record CInv (st : cstate) : Prop := {
 Lemma CInv_init : CInv (cinit ds).
 Proof. constructor; cbn; auto; try discriminate; intros; contradiction. Qed.
 
-Ltac tyc ty t0 := destruct (Nat.eq_dec ty t0) as [->|?];
-  [rewrite ?Nat.eqb_refl|
-   repeat match goal with
-   | H : ?a <> ?b |- _ => first [rewrite (proj2 (Nat.eqb_neq a b) H) | rewrite (proj2 (Nat.eqb_neq b a) (not_eq_sym H))]
-   end].
+Ltac mk := constructor; cbn [c_todo c_done c_buf c_pending c_read c_handled c_dropped].
+
+Lemma pend_none st ty : c_pending st = None -> pend ty st = [].
+Proof. intros H. unfold pend. now rewrite H. Qed.
 
 Lemma cstep_inv st a st' : CInv st -> cstep trysend_agg cap st a = Some st' -> CInv st'.
 Proof.
@@ -52,49 +51,68 @@ Proof.
     destruct (c_pending st) as [pd|] eqn:Epd; [discriminate|].
     destruct (c_todo st) as [|d r] eqn:Et; [discriminate|].
     assert (Hs' : ds = (c_done st ++ [d]) ++ r) by (rewrite <- app_assoc; exact Hs).
-    assert (Hpend0 : forall ty, pend ty st = []) by (intros ty; unfold pend; now rewrite Epd).
+    assert (Hdd' : forall x, In x (c_dropped st) -> In x (c_done st ++ [d]))
+      by (intros x Hx; apply in_or_app; left; now apply Hdd).
     destruct (is_chan d) eqn:Ech; cbn [negb] in H.
-    2: { injection H as <-. constructor; cbn; auto.
-         - rewrite Epd. exact Hp.
-         - intros ty Hdr. rewrite chan_app, (chan_one_handler d ty Ech), app_nil_r.
-           unfold pend. cbn. rewrite <- (Hpend0 ty) at 1. unfold pend. rewrite Epd. apply Hf. exact Hdr. }
+    2: { injection H as <-. mk.
+         - exact Hs'.
+         - exact Hb.
+         - discriminate.
+         - intros ty Hdr. rewrite chan_app, (chan_one_handler d ty Ech), app_nil_r, (Hf ty Hdr).
+           unfold pend; cbn [c_pending c_buf]. now rewrite Epd.
+         - exact Hd.
+         - exact Hdd'. }
     destruct (length (c_buf st (d_type d)) <? cap (d_type d)).
-    { injection H as <-. constructor; cbn; auto.
+    { injection H as <-. mk.
+      - exact Hs'.
       - intros ty x. unfold bset. destruct (ty =? d_type d) eqn:E.
         + apply Nat.eqb_eq in E. subst ty. intros Hin. apply in_app_or in Hin as [Hin|[<-|[]]]; auto.
         + apply Hb.
       - discriminate.
-      - intros ty Hdr. rewrite chan_app, (Hf ty Hdr), (Hpend0 ty). unfold pend, bset. cbn.
+      - intros ty Hdr. rewrite chan_app, (Hf ty Hdr), (pend_none st ty Epd). unfold pend, bset; cbn [c_pending c_buf].
         destruct (Nat.eq_dec ty (d_type d)) as [->|Hne].
         + rewrite Nat.eqb_refl, (chan_one_same d Ech), !app_nil_r. now rewrite app_assoc.
-        + rewrite (proj2 (Nat.eqb_neq _ _) Hne), (chan_one_other d ty (not_eq_sym Hne)), !app_nil_r. reflexivity. }
+        + rewrite (proj2 (Nat.eqb_neq _ _) Hne), (chan_one_other d ty (not_eq_sym Hne)), !app_nil_r. reflexivity.
+      - exact Hd.
+      - exact Hdd'. }
     destruct (d_agg d && negb trysend_agg) eqn:Eblk.
-    { injection H as <-. constructor; cbn; auto.
+    { injection H as <-. mk.
+      - exact Hs'.
+      - exact Hb.
       - intros x Hx. injection Hx as <-. exact Ech.
-      - intros ty Hdr. rewrite chan_app, (Hf ty Hdr), (Hpend0 ty). unfold pend. cbn.
+      - intros ty Hdr. rewrite chan_app, (Hf ty Hdr), (pend_none st ty Epd). unfold pend; cbn [c_pending c_buf].
         destruct (Nat.eq_dec (d_type d) ty) as [<-|Hne].
         + rewrite Nat.eqb_refl, (chan_one_same d Ech), !app_nil_r. now rewrite app_assoc.
-        + rewrite (proj2 (Nat.eqb_neq _ _) Hne), (chan_one_other d ty Hne), !app_nil_r. reflexivity. }
-    { injection H as <-. constructor; cbn; auto.
+        + rewrite (proj2 (Nat.eqb_neq _ _) Hne), (chan_one_other d ty Hne), !app_nil_r. reflexivity.
+      - exact Hd.
+      - exact Hdd'. }
+    { injection H as <-. mk.
+      - exact Hs'.
+      - exact Hb.
       - discriminate.
       - intros ty Hdr. rewrite chan_app in Hdr. apply app_eq_nil in Hdr as [Hdr1 Hdr2].
         assert (Hne : d_type d <> ty).
         { intros <-. rewrite (chan_one_same d Ech) in Hdr2. discriminate. }
         rewrite chan_app, (chan_one_other d ty Hne), app_nil_r, (Hf ty Hdr1).
-        unfold pend. cbn. rewrite Epd. reflexivity.
+        unfold pend; cbn [c_pending c_buf]. now rewrite Epd.
       - intros x Hx. apply in_app_or in Hx as [Hx|[<-|[]]]; [auto|]. split; [exact Ech|].
-        apply andb_false_iff in Eblk as [E|E]; [now left|right]. now apply negb_false_iff in E. }
+        apply andb_false_iff in Eblk as [E|E]; [now left|right]. now apply negb_false_iff in E.
+      - intros x Hx. apply in_or_app. apply in_app_or in Hx as [Hx|[<-|[]]]; [left; now apply Hdd|right; now left]. }
   - (* the protocol receives from the channel of type ty0 *)
     destruct (c_buf st ty0) as [|v b] eqn:Eb.
     + destruct (c_pending st) as [pd|] eqn:Epd; [|discriminate].
       destruct (d_type pd =? ty0) eqn:Ety; [|discriminate]. apply Nat.eqb_eq in Ety.
-      injection H as <-. constructor; cbn; auto.
+      injection H as <-. mk.
+      * exact Hs.
+      * exact Hb.
       * discriminate.
-      * intros ty Hdr. rewrite (Hf ty Hdr), chan_app. unfold pend. cbn. rewrite Epd.
+      * intros ty Hdr. rewrite (Hf ty Hdr), chan_app. unfold pend; cbn [c_pending c_buf]. rewrite Epd.
         destruct (Nat.eq_dec (d_type pd) ty) as [E|Hne].
         -- rewrite (proj2 (Nat.eqb_eq _ _) E). subst ty0 ty.
            rewrite (chan_one_same pd (Hp pd eq_refl)), Eb, !app_nil_r. reflexivity.
         -- rewrite (proj2 (Nat.eqb_neq _ _) Hne), (chan_one_other pd ty Hne), !app_nil_r. reflexivity.
+      * exact Hd.
+      * exact Hdd.
     + assert (Hv : is_chan v = true /\ d_type v = ty0) by (apply Hb; rewrite Eb; now left).
       destruct Hv as [Hvc Hvt].
       assert (Hbuf' : forall l, (forall x, In x l -> is_chan x = true /\ d_type x = ty0) ->
@@ -103,38 +121,46 @@ Proof.
         apply Nat.eqb_eq in E. subst ty. apply Hl. }
       assert (Hbtail : forall x, In x b -> is_chan x = true /\ d_type x = ty0).
       { intros x Hx. apply Hb. rewrite Eb. now right. }
+      assert (Hv1 : chan ty0 [v] = [v]) by (rewrite <- Hvt; exact (chan_one_same v Hvc)).
+      assert (Hv2 : forall ty, ty <> ty0 -> chan ty [v] = []).
+      { intros ty Hne. apply chan_one_other. congruence. }
       destruct (c_pending st) as [pd|] eqn:Epd.
       * destruct (d_type pd =? ty0) eqn:Ety.
-        -- apply Nat.eqb_eq in Ety. injection H as <-. constructor; cbn; auto.
+        -- apply Nat.eqb_eq in Ety. injection H as <-. mk.
+           ++ exact Hs.
            ++ apply Hbuf'. intros x Hx. apply in_app_or in Hx as [Hx|[<-|[]]]; [auto|].
               split; [apply Hp; reflexivity|exact Ety].
            ++ discriminate.
-           ++ intros ty Hdr. rewrite (Hf ty Hdr), chan_app. unfold pend, bset. cbn. rewrite Epd.
+           ++ intros ty Hdr. rewrite (Hf ty Hdr), chan_app. unfold pend, bset; cbn [c_pending c_buf]. rewrite Epd.
               destruct (Nat.eq_dec ty ty0) as [->|Hne].
-              ** rewrite Nat.eqb_refl, (proj2 (Nat.eqb_eq _ _) Ety), Eb. rewrite <- Hvt at 2.
-                 rewrite (chan_one_same v Hvc), app_nil_r. rewrite <- !app_assoc. reflexivity.
-              ** rewrite (proj2 (Nat.eqb_neq _ _) Hne).
+              ** rewrite Nat.eqb_refl, (proj2 (Nat.eqb_eq _ _) Ety), Eb, Hv1, app_nil_r.
+                 rewrite <- !app_assoc. reflexivity.
+              ** rewrite (proj2 (Nat.eqb_neq _ _) Hne), (Hv2 ty Hne).
                  assert (Hpt : d_type pd <> ty) by congruence.
-                 rewrite (proj2 (Nat.eqb_neq _ _) Hpt), (chan_one_other v ty) by congruence.
-                 rewrite !app_nil_r. reflexivity.
-        -- apply Nat.eqb_neq in Ety. injection H as <-. constructor; cbn; auto.
+                 rewrite (proj2 (Nat.eqb_neq _ _) Hpt), !app_nil_r. reflexivity.
+           ++ exact Hd.
+           ++ exact Hdd.
+        -- apply Nat.eqb_neq in Ety. injection H as <-. mk.
+           ++ exact Hs.
            ++ apply Hbuf'. exact Hbtail.
-           ++ rewrite Epd. exact Hp.
-           ++ intros ty Hdr. rewrite (Hf ty Hdr), chan_app. unfold pend, bset. cbn. rewrite Epd.
+           ++ exact Hp.
+           ++ intros ty Hdr. rewrite (Hf ty Hdr), chan_app. unfold pend, bset; cbn [c_pending c_buf]. rewrite Epd.
               destruct (Nat.eq_dec ty ty0) as [->|Hne].
-              ** rewrite Nat.eqb_refl, (proj2 (Nat.eqb_neq _ _) Ety), Eb. rewrite <- Hvt at 2.
-                 rewrite (chan_one_same v Hvc), !app_nil_r. rewrite <- app_assoc. reflexivity.
-              ** rewrite (proj2 (Nat.eqb_neq _ _) Hne), (chan_one_other v ty) by congruence.
-                 rewrite app_nil_r. reflexivity.
-      * injection H as <-. constructor; cbn; auto.
+              ** rewrite Nat.eqb_refl, (proj2 (Nat.eqb_neq _ _) Ety), Eb, Hv1, !app_nil_r.
+                 rewrite <- app_assoc. reflexivity.
+              ** rewrite (proj2 (Nat.eqb_neq _ _) Hne), (Hv2 ty Hne), !app_nil_r. reflexivity.
+           ++ exact Hd.
+           ++ exact Hdd.
+      * injection H as <-. mk.
+        -- exact Hs.
         -- apply Hbuf'. exact Hbtail.
         -- discriminate.
-        -- intros ty Hdr. rewrite (Hf ty Hdr), chan_app. unfold pend, bset. cbn. rewrite Epd.
+        -- intros ty Hdr. rewrite (Hf ty Hdr), chan_app. unfold pend, bset; cbn [c_pending c_buf]. rewrite Epd.
            destruct (Nat.eq_dec ty ty0) as [->|Hne].
-           ++ rewrite Nat.eqb_refl, Eb. rewrite <- Hvt at 2.
-              rewrite (chan_one_same v Hvc), !app_nil_r. rewrite <- app_assoc. reflexivity.
-           ++ rewrite (proj2 (Nat.eqb_neq _ _) Hne), (chan_one_other v ty) by congruence.
-              rewrite app_nil_r. reflexivity.
+           ++ rewrite Nat.eqb_refl, Eb, Hv1, !app_nil_r. rewrite <- app_assoc. reflexivity.
+           ++ rewrite (proj2 (Nat.eqb_neq _ _) Hne), (Hv2 ty Hne), !app_nil_r. reflexivity.
+        -- exact Hd.
+        -- exact Hdd.
 Qed.
 
 Lemma crun_inv acts : forall st st', CInv st -> crun trysend_agg cap st acts = Some st' -> CInv st'.
@@ -174,4 +200,67 @@ Proof.
   { rewrite (ci_split st Hinv). apply in_or_app. left. apply (ci_drop_done st Hinv d Hin). }
   rewrite (Hagg d H0 Hc Ht) in Ha. discriminate.
 Qed.
+
+(* ... so when everything has been dispatched and the channel is empty, the
+   protocol has received exactly the batches of that type, in order: one per
+   round (Node/AggregateProofs.v) whatever the capacity *)
+Corollary all_batches_received acts st ty :
+  trysend_agg = false ->
+  (forall d, In d ds -> is_chan d = true -> d_type d = ty -> d_agg d = true) ->
+  crun trysend_agg cap (cinit ds) acts = Some st ->
+  c_todo st = [] -> c_pending st = None -> c_buf st ty = [] ->
+  chan ty (c_read st) = chan ty ds.
+Proof.
+  intros Hts Hagg H Ht Hp Hb. destruct (batches_never_lost acts st ty Hts Hagg H) as [Hf Hs].
+  rewrite Hs, Ht, app_nil_r, Hf, Hb, (pend_none st ty Hp), !app_nil_r. reflexivity.
+Qed.
+
+(* a send that waits is completed by the very next read of that channel: the
+   reader can never be refused while the dispatch goroutine waits for it *)
+Theorem waiting_send_completes st d :
+  c_pending st = Some d ->
+  exists st', cstep trysend_agg cap st (CRead (d_type d)) = Some st' /\ c_pending st' = None.
+Proof.
+  intros Hp. cbn [cstep]. rewrite Hp, Nat.eqb_refl.
+  destruct (c_buf st (d_type d)); eexists; split; reflexivity.
+Qed.
 End Chan.
+
+(* ----------------------------------------------------------- witnesses -- *)
+
+Definition batch (ty n : nat) : delivery :=
+  {| d_type := ty; d_kind := Channel; d_agg := true;
+     d_batch := [EMsg 1 {| p_from := Some 1; p_peer := PKey 1; p_type := ty; p_payload := n |}] |}.
+
+(* capacity 1, three rounds dispatched before the protocol reads.  Blocking
+   send (the code): the second batch waits, the third is not even dispatched;
+   reading three times yields the three batches in order. *)
+Example blocking_send_example :
+  let cap := fun _ => 1 in
+  (exists st, crun false cap (cinit [batch 8 1; batch 8 2; batch 8 3]) [CNext; CNext] = Some st /\
+     c_buf st 8 = [batch 8 1] /\ c_pending st = Some (batch 8 2) /\ c_todo st = [batch 8 3] /\
+     cstep false cap st CNext = None) /\
+  (exists st, crun false cap (cinit [batch 8 1; batch 8 2; batch 8 3])
+                [CNext; CNext; CRead 8; CNext; CRead 8; CRead 8] = Some st /\
+     c_read st = [batch 8 1; batch 8 2; batch 8 3] /\ c_dropped st = []).
+Proof. split; eexists; vm_compute; repeat split. Qed.
+
+(* The non-blocking variant (TrySend in the aggregated branch) LOSES batches:
+   the same history delivers only the first round. *)
+Theorem trysend_loses_batches :
+  exists cap ds acts st,
+    crun true cap (cinit ds) acts = Some st /\ c_todo st = [] /\ c_pending st = None /\
+    c_buf st 8 = [] /\ chan 8 (c_read st) <> chan 8 ds /\ c_dropped st = [batch 8 2; batch 8 3].
+Proof.
+  exists (fun _ => 1), [batch 8 1; batch 8 2; batch 8 3], [CNext; CNext; CNext; CRead 8].
+  eexists. vm_compute. repeat split. discriminate.
+Qed.
+
+(* what the code documents for NON-aggregated types: a message to a full channel
+   is refused ("channel too small ... please use RegisterChannelLength()") *)
+Example single_refused_when_full :
+  let single n := {| d_type := 3; d_kind := Channel; d_agg := false;
+                     d_batch := [EMsg 1 {| p_from := Some 1; p_peer := PKey 1; p_type := 3; p_payload := n |}] |} in
+  exists st, crun false (fun _ => 1) (cinit [single 1; single 2]) [CNext; CNext; CRead 3] = Some st /\
+    c_read st = [single 1] /\ c_dropped st = [single 2].
+Proof. eexists. vm_compute. repeat split. Qed.
